@@ -79,7 +79,34 @@ pub fn gen(ctx: &mut Ctx) {
         run_case(ctx, "C09", &w, &steps);
         ctx.stat("c09.ctap_cases");
     }
-    // ---- through the client
+    // ---- through the client: corpus of per-credential shapes on a credential with both secrets
+    for hm in [Hm::NoUv, Hm::UvOnly, Hm::NoUvMc] {
+        for prehashed in [false, true] {
+            let v = |ctx: &mut Ctx| if prehashed { CPrfV { first: ctx.rng.bytes(32), second: Some(ctx.rng.bytes(32)) } } else { CPrfV { first: ctx.rng.bytes(7), second: None } };
+            let shapes: Vec<Vec<(String, CPrfV)>> = vec![
+                vec![("@0".into(), v(ctx))],                                   // the used credential listed
+                vec![("@1".into(), v(ctx)), ("@0".into(), v(ctx))],            // both registered credentials listed
+                vec![("@1".into(), v(ctx))],                                   // only the other one: default inputs apply
+                vec![("@0".into(), v(ctx)), ("".into(), v(ctx))],              // a good key and an empty one
+                vec![("@0".into(), v(ctx)), (passkey_types::encoding::base64url(&[9u8; 16]), v(ctx))],   // a good key and an unlisted one
+                vec![("@0".into(), v(ctx)), ("***".into(), v(ctx))],           // a good key and an undecodable one
+                vec![("@0".into(), CPrfV { first: ctx.rng.bytes(31), second: None })],   // wrong length if pre-hashed
+            ];
+            for sh in shapes {
+                let w = World { kind: Kind::RefFull, counter_on: false, id_len: 16, hm, preload: vec![] };
+                let mk_reg = |ctx: &mut Ctx| { let mut r = simple_reg(ctx, url, Some(rp)); r.ext = Some(CExt { cred_props: None, prf: Some(CPrfI { eval: None, by_cred: None }), prf_hashed: None }); r };
+                let (r0, r1) = (mk_reg(ctx), mk_reg(ctx));
+                let mut a = simple_auth(ctx, url, Some(rp));
+                a.allow_refs = vec![0, 1];
+                let inp = Some(CPrfI { eval: Some(v(ctx)), by_cred: Some(sh) });
+                a.ext = Some(CExt { cred_props: None, prf: if prehashed { None } else { inp.clone() }, prf_hashed: if prehashed { inp } else { None } });
+                let mut a2 = a.clone(); a2.uv = UvR::Discouraged;
+                let mut s2 = cstep(COp::Auth(a2)); s2.uv = UvState { answer: Ok((true, false)), ..UvState::ok() };
+                run_ccase(ctx, "C09", &w, &[cstep(COp::Reg(r0)), cstep(COp::Reg(r1)), cstep(COp::Auth(a)), s2]);
+                ctx.stat("c09.client_corpus");
+            }
+        }
+    }
     for i in 0..n {
         let hm = HMS[i % 5];
         let kind = [Kind::RefFull, Kind::RefForced, Kind::Map][i % 3];
